@@ -249,7 +249,16 @@ pub fn run_impl_structured(req: &str, model: &str) -> String {
     }
     let text = dec_str(&m[0][1..]).unwrap();
     let vars = crate::scripted::dec_vars(t[2]);
-    let out = run_structured(&text, &vars);
+    // the malformed-structure stream (fuel 2000) may produce programs that never end: a short
+    // watchdog, and the answer `stopped` does not count as a slow case
+    let malformed = t[0] == "c04raw" && t.get(3) == Some(&"2000");
+    let mut out = if malformed { crate::sdkenv::run_structured_short(&text, &vars, 200) } else { run_structured(&text, &vars) };
+    if out == "timeout" && std::env::var("VERIF_DEBUG_TIMEOUT").is_ok() {
+        eprintln!("TIMEOUT-CASE vars={:?}\n{}", vars, text);
+    }
+    if malformed && out == "timeout" {
+        out = if m[1] == "M:fuel" { "fuel".to_string() } else { "stopped".to_string() };
+    }
     format!("{} M:{} {}", m[0], out.replace(' ', "_"), m[2])
 }
 
@@ -394,6 +403,59 @@ pub fn keyword_probes() -> Vec<Case> {
     out
 }
 
+/// Flat line sequences that are NOT well nested (missing / surplus / wrong-kind terminators, an
+/// `else` after an `else`, an `elif` after it, stray `return` / `end_fn`, blocks opened inside a
+/// block and closed outside it): outside the property's domain, so only the goto-machine model
+/// and the real interpreter are compared — this is what ties the ERROR paths of the block
+/// scanners and of the call stacks (`End of … block not found`, `Unsupported nested structure`,
+/// a terminator met with an empty or foreign call stack) to the model.
+pub fn malformed_program(rng: &mut Rng) -> Case {
+    let e = |s: &str| s.to_string();
+    let n = 2 + rng.below(9);
+    let mut ls: Vec<Vec<String>> = vec![line(Some("arr"), "array", &[e("a"), e("b")])];
+    let conds = ["true", "false", "${fa}", "${fb}"];
+    let mut k = 0;
+    for _ in 0..n {
+        k += 1;
+        let c = e(rng.pick_s(&conds));
+        let l = match rng.below(16) {
+            0 | 1 => line(None, rng.pick_s(&KW_IF), &[c]),
+            2 => line(None, rng.pick_s(&KW_ELIF), &[c]),
+            3 => line(None, rng.pick_s(&KW_ELSE), &[]),
+            4 | 5 => line(None, rng.pick_s(&["end", "end", "end_if", "fi", "end_while", "endwhile", "end_for", "end_fn", "std::flowcontrol::EndIf"]), &[]),
+            6 => {
+                // (a loop that is entered switches its own flag off first: no endless runs)
+                if rng.chance(1, 2) {
+                    ls.push(line(None, rng.pick_s(&KW_WHILE), &[e("${fw}")]));
+                    line(Some("fw"), "set", &[e("false")])
+                } else {
+                    line(None, rng.pick_s(&KW_WHILE), &[e("false")])
+                }
+            }
+            7 => line(None, rng.pick_s(&KW_FOR), &[e("x"), e("in"), e(rng.pick_s(&["${arr}", "${nohandle}"]))]),
+            8 => line(Some(rng.pick_s(&["fa", "fb"])), "set", &[e("false")]),
+            9 => line(None, rng.pick_s(&KW_FN), &[e("g")]),
+            10 => line(None, rng.pick_s(&KW_RET), &if rng.chance(1, 2) { vec![e("r")] } else { vec![] }),
+            _ => line(None, "emit", &[format!("t{}", k)]),
+        };
+        ls.push(l);
+    }
+    // the call comes last, outside whatever body the definition got (no recursion)
+    if rng.chance(1, 2) {
+        ls.push(line(if rng.chance(1, 2) { Some("o") } else { None }, "g", &[]));
+    }
+    ls.push(line(None, "emit", &[e("last")]));
+    let mut toks = vec![format!("B{}", ls.len())];
+    for l in &ls {
+        toks.extend(l.clone());
+    }
+    let mut vs: Vec<String> = init_vars(rng).split(',').map(|x| x.to_string()).collect();
+    vs.push(format!("{}={}", enc_str("fw"), enc_str("true")));
+    vs.sort();
+    let vars = vs.join(",");
+    Case { req: format!("c04raw {} {} 2000", toks.join(";"), vars), in_domain: false, nontrivial: false, tags: vec!["malformed-structure"] }
+}
+
 impl Prop for C04Prop {
     fn id(&self) -> &'static str {
         "C04"
@@ -411,6 +473,9 @@ impl Prop for C04Prop {
         }
     }
     fn generate(&self, rng: &mut Rng, _tier: Tier) -> Case {
+        if rng.chance(1, 5) {
+            return malformed_program(rng);
+        }
         let vars = init_vars(rng);
         let mut g = Gen { rng, next_id: 0, lines: 0, max_depth: 4, loops: 0, canonical_only: false, calls: vec![], in_fn: false, in_for: 0, return_in_for: false, made_return_in_for: false };
         let mut toks = vec![];
